@@ -5,6 +5,7 @@ import Mc.Drv.HookCalls
 import Mc.Drv.Rounds
 import Mc.Drv.Events
 import Mc.Drv.Informer
+import Mc.Drv.Meta
 open Mc Mc.Drv
 
 def dispatch (c : J) : Res :=
@@ -16,6 +17,7 @@ def dispatch (c : J) : Res :=
   | "rounds" => handleRounds c
   | "event" => handleEvent c
   | "informer" => handleInformer c
+  | "meta" => handleMeta c
   | k => { agree := false, where_ := s!"unknown kind {k}" }
 
 partial def loop (h : IO.FS.Stream) (out : IO.FS.Stream) : IO Unit := do
